@@ -179,11 +179,10 @@ def tol_of(q):
         mx = max([abs(F(x)) for row in q['data'] for x in row] + [F(0)])
     else:
         mx = max([abs(F(x)) for row in q['values'].values() for x in row] + [F(0)])
-    # implicit weights come from femio's area/volume kernels, some of which
-    # accumulate in float32 (prism/hex centroid kernels): 2^-20 there
-    bits = 20 if (q['kind'] == 'e2n' and q['mode'] == 'mean' and q['weight'] == 'implicit'
-                  and q.get('f32_kernel', True)) else TOL_BITS
-    return (1 + mx) / 2 ** bits
+    # since /repo 38049d8 every metric kernel works relative to a local point in
+    # float64: measured <= 3e-15 relative (against the exact metric of the actual
+    # float coordinates) at every scale and offset, so one tolerance everywhere
+    return (1 + mx) / 2 ** TOL_BITS
 
 
 # ------------------------------------------------------- property (oracle)
@@ -454,10 +453,6 @@ def queries_for(rng, mesh):
                    'values': values(rng.random() < 0.5)})
         q = {'kind': 'e2n', 'mode': 'mean', 'weight': 'implicit', 'order1': o,
              'values': values(rng.random() < 0.5), 'f32_kernel': f32}
-        if f32 and far:
-            # hex/prism/pyr volume kernels (float32, fan from the origin) are not
-            # translation invariant on the unchanged tree: oracle only
-            q['oracle_only'] = True
         qs.append(q)
         qs.append({'kind': 'e2n', 'mode': 'effective', 'weight': 'false', 'order1': o,
                    'values': values(False)})
@@ -743,8 +738,7 @@ def main(ctx):
         'hand model coq/C14/Model.v of signal_processor.py conversions on top of the C13 '
         'incidence model (tie H), pinned by the correspondence',
         'floating point is modelled as exact: each float of the implementation enters Coq as its '
-        f'exact rational and must lie within 2^-{TOL_BITS} (1 + max|input|) of the model value over Q '
-        '(2^-20 with implicit weights: femio\'s prism/hex volume kernels accumulate in float32)',
+        f'exact rational and must lie within 2^-{TOL_BITS} (1 + max|input|) of the model value over Q',
         'element metrics for the implicit weights are computed exactly by harness/c14.py '
         '(areas of planar z=const tri/quad, volumes of box/half-box/Kuhn-tet cells) and enter the '
         'model as a table `mu`; femio\'s own area/volume kernels are C11\'s subject',
@@ -814,7 +808,7 @@ def main(ctx):
     ctx.count('oracle:unsupported-by-femio', unsupported)
     n_oracle, n_corr = report(ctx, cases, ev)
     ctx.corr = {'cases': nq, 'meshes': len(cases), 'corpus_meshes': n_corpus,
-                'disagreements': n_corr, 'tolerance': f'2^-{TOL_BITS} * (1 + max|input|); 2^-20 * (1 + max|input|) with implicit (metric) weights'}
+                'disagreements': n_corr, 'tolerance': f'2^-{TOL_BITS} * (1 + max|input|)'}
     ctx.notes['search_evaluations'] = nq
     ctx.notes['impl_property_failures'] = n_oracle
     if not proof_ok and n_oracle == 0 and n_corr == 0:
